@@ -1,7 +1,7 @@
 """Shared machinery of the optimizer checks C09, C10, C15: case generator
 (merit-function families, configurations, operation sequences), Coq emission of
 the recorded traces for run/RunOpt.v, and the common check driver."""
-import json, math, os, re
+import json, math, os, random, re
 from concurrent.futures import ThreadPoolExecutor
 import vlib
 from vlib import clist, cbool, cnat, cn
@@ -143,7 +143,7 @@ def gen_sel(rng, n, tags, names=None, allow_bool=True, rich=False):
     return [rng.randrange(n), str_selector(rng, attrs)]           # mixed list
 
 
-def gen_case(rng, profile):
+def gen_case_base(rng, profile):
     fam = rng.choice(["linear", "linear", "quadratic", "quadratic", "trig", "inconsistent", "rankdef"])
     n = rng.choice([1, 2, 2, 3, 3, 4])
     if fam == "inconsistent":
@@ -425,6 +425,99 @@ def gen_case(rng, profile):
             "ops": ops, "twin": twin, "timeout": 5.0, "ctor": ctor, "names": names}
 
 
+def tr_apply(spec, v):
+    """the transform hooks, as the runner builds them"""
+    if not spec:
+        return v
+    k = spec[0]
+    if k == "abs":
+        return abs(v)
+    if k == "square":
+        return v * v
+    if k == "scale":
+        return v * spec[1]
+    if k == "floor":
+        return v if v > spec[1] else spec[1]
+    return v if v < spec[1] else spec[1]
+
+
+def boundary_layer(case, profile):
+    """degenerate and boundary configurations laid over a generated case.  Draws from a generator of its
+    own (seeded by the case), so the underlying stream of cases is the same as without this layer.
+      * several containers, knobs with EQUAL names in different containers (knob locations stay distinct)
+      * duck-typed `transform` hooks on target objects, target values given as objects with `_value`,
+        limits / step taken from `container.vary_default`
+      * boundary values of the numeric attributes: max_step 0 / 0.0 / 1e-300 / inf / numpy scalar, tol 0,
+        limits lo == hi and (0, 0), step 0 (rare), broyden 0, solve(n_steps=0)"""
+    rng = random.Random("boundary:" + json.dumps(case, sort_keys=True))
+    n, m = len(case["x0"]), len(case["targets"])
+    vary, targets, names = case["vary"], case["targets"], case["names"]
+    # ---- containers ---------------------------------------------------------------------------------
+    if n >= 2 and rng.random() < {"C09": 0.22, "C10": 0.15, "C15": 0.22}[profile]:
+        nc = rng.choice([2, 2, 3]) if n >= 3 else 2
+        cidx = [rng.randrange(nc) for _ in range(n)]
+        if len(set(cidx)) == 1:
+            cidx[-1] = (cidx[0] + 1) % nc
+        order = sorted(set(cidx)); cidx = [order.index(c) for c in cidx]
+        if rng.random() < 0.8:
+            # equal names across containers: knob j takes the name of an earlier knob that lives elsewhere
+            for j in range(1, n):
+                cand = [i for i in range(j) if cidx[i] != cidx[j] and
+                        all(not (names[k] == names[i] and cidx[k] == cidx[j]) for k in range(n) if k != j)]
+                if cand and rng.random() < 0.7:
+                    names[j] = names[rng.choice(cand)]
+        case["containers"] = cidx
+    # ---- transform hooks ----------------------------------------------------------------------------
+    if rng.random() < {"C09": 0.14, "C10": 0.12, "C15": 0.25}[profile]:
+        plain = [i for i in range(m) if not targets[i].get("optimize_log")]
+        for i in rng.sample(plain, min(len(plain), rng.choice([1, 1, 2, m]))):
+            v = targets[i]["value"]
+            spec = rng.choice([["abs"], ["abs"], ["square"], ["scale", 0.5], ["scale", -3.0], ["floor", v], ["ceil", v],
+                               ["floor", v + 0.3], ["ceil", v - 0.3]])
+            targets[i]["transform"] = spec
+            if spec[0] in ("abs", "square", "scale") or rng.random() < 0.5:
+                targets[i]["value"] = tr_apply(spec, v)      # still reachable where the raw value was
+    if rng.random() < 0.05:
+        case["ctor"]["boxed_value"] = True
+    if rng.random() < 0.05:
+        case["ctor"]["vary_default"] = True
+    # ---- boundary values ----------------------------------------------------------------------------
+    if rng.random() < {"C09": 0.10, "C10": 0.30, "C15": 0.10}[profile]:
+        j = rng.randrange(n)
+        vary[j]["max_step"] = rng.choice([0, 0, 0.0, 0.0, 1e-300, float("inf")])
+        vary[j]["active"] = True
+        if rng.random() < 0.6:
+            for k in range(n):
+                if k != j:
+                    vary[k]["max_step"] = rng.choice([None, None, 0])
+    if rng.random() < 0.10:
+        for v in vary:
+            if v["max_step"] is not None and rng.random() < 0.6:
+                v["max_step_np"] = True
+    if rng.random() < 0.04:
+        targets[rng.randrange(m)]["tol"] = 0.0
+    if rng.random() < 0.05:
+        j = rng.randrange(n)
+        if rng.random() < 0.3:
+            case["x0"][j] = 0.0
+        vary[j]["limits"] = [case["x0"][j], case["x0"][j]]
+    if rng.random() < 0.015:
+        vary[rng.randrange(n)]["step"] = 0.0
+    for op in case["ops"]:
+        if op[0] in ("solve", "step") and op[-1] is False and rng.random() < 0.1:
+            op[-1] = 0
+        if op[0] == "solve" and rng.random() < 0.03:
+            op[1] = 0
+    for k, op in enumerate(case["ops"]):
+        if op[0] == "set" and op[3] == "max_step" and rng.random() < 0.3:
+            op[4] = rng.choice([0, 0.0, 1e-300, float("inf")])
+    return case
+
+
+def gen_case(rng, profile):
+    return boundary_layer(gen_case_base(rng, profile), profile)
+
+
 # ---------------------------------------------------------------------------
 # Coq emission
 # ---------------------------------------------------------------------------
@@ -548,7 +641,17 @@ def emit_cfg(case, N):
             f"{cfl([t['value'] for t in case['targets']])} {cfl([float('nan') if t['tol'] is None else t['tol'] for t in case['targets']])} "
             f"{cfl([t['weight'] for t in case['targets']])} {clist([cn(N(t['tag'])) for t in case['targets']])} "
             f"{o['n_steps_max']} {cbool(o['assert_within_tol'])} {cbool(o['restore_if_fail'])} {cbool(o.get('check_limits', True))} "
-            f"{cbl([bool(t.get('optimize_log', False)) for t in case['targets']])})")
+            f"{cbl([bool(t.get('optimize_log', False)) for t in case['targets']])} "
+            f"{clist([ctr(t.get('transform')) for t in case['targets']])})")
+
+
+def ctr(spec):
+    if not spec:
+        return "TId"
+    k = spec[0]
+    if k in ("abs", "square"):
+        return {"abs": "TAbs", "square": "TSquare"}[k]
+    return "(" + {"scale": "TScale", "floor": "TFloor", "ceil": "TCeil"}[k] + " " + cf(spec[1]) + ")"
 
 
 def emit_case(case, res):
@@ -808,15 +911,43 @@ def distribution(cases, results):
             k = f"{name}:{'ok' if st == 'ok' else 'raised'}"
             d["foreign_calls"][k] = d["foreign_calls"].get(k, 0) + 1
     d["constructor_forms_used"] = sorted(used)
+    bl = {"several_containers": 0, "equal_knob_names_in_different_containers": 0, "transform_hook_cases": 0, "transform_kinds": {},
+          "max_step_boundary_values": {}, "all_max_steps_zero_or_None_with_a_zero": 0, "tol_zero": 0, "limits_lo_eq_hi": 0,
+          "step_zero": 0, "broyden_0_ops": 0, "solve_n_steps_0": 0}
+    for c in cases:
+        bl["several_containers"] += bool(c.get("containers"))
+        bl["equal_knob_names_in_different_containers"] += bool(c.get("containers")) and len(set(c["names"])) < len(c["names"])
+        bl["transform_hook_cases"] += any(t.get("transform") for t in c["targets"])
+        for t in c["targets"]:
+            if t.get("transform"):
+                k = t["transform"][0]; bl["transform_kinds"][k] = bl["transform_kinds"].get(k, 0) + 1
+        for v in c["vary"]:
+            if v["max_step"] is not None and (v["max_step"] in (0, 1e-300, float("inf")) or v.get("max_step_np")):
+                k = repr(v["max_step"]) + (" (numpy)" if v.get("max_step_np") else "")
+                bl["max_step_boundary_values"][k] = bl["max_step_boundary_values"].get(k, 0) + 1
+        ms = [v["max_step"] for v in c["vary"]]
+        bl["all_max_steps_zero_or_None_with_a_zero"] += any(x is not None and x == 0 for x in ms) and all(x is None or x == 0 for x in ms)
+        bl["tol_zero"] += any(t["tol"] is not None and t["tol"] == 0 for t in c["targets"])
+        bl["limits_lo_eq_hi"] += any(v["limits"] is not None and v["limits"][0] is not None and v["limits"][0] == v["limits"][1] for v in c["vary"])
+        bl["step_zero"] += any(v["step"] is not None and v["step"] == 0 for v in c["vary"])
+        for op in c["ops"]:
+            bl["broyden_0_ops"] += op[0] in ("solve", "step") and op[-1] is not False and op[-1] == 0
+            bl["solve_n_steps_0"] += op[0] == "solve" and op[1] is not None and op[1] == 0
+    d["boundary_layer"] = bl
     return d
 
 
 # which constructor arguments the generator exercises (checked against the signatures the runner reports)
 CTOR_COVERAGE = {
-    "Vary": {"name": "yes", "container": "yes (a dict)", "limits": "None, two-sided, one-sided None / inf", "step": "None and values",
-             "weight": "values and None", "max_step": "None and values", "tag": "yes", "active": "True / False"},
-    "Target": {"tar": "integer index into the action's result (callables: no)", "value": "floats ('preserve': no)",
-               "tol": "values and None", "weight": "values and None", "scale": "yes (alias of weight)", "action": "yes",
+    "Vary": {"name": "yes; equal names in different containers", "container": "dicts: one for all knobs, or 2..3 containers; "
+                     "with a vary_default attribute (limits and step defaults)",
+             "limits": "None, two-sided, one-sided None / inf, lo == hi, (0, 0)", "step": "None, values, 0 (rare: a NaN Jacobian)",
+             "weight": "values and None (0 and negative: refused by an assertion of Vary, not generated)",
+             "max_step": "None, values, 0, 0.0, 1e-300, inf, numpy scalars", "tag": "yes", "active": "True / False"},
+    "Target": {"tar": "integer index into the action's result (callables: no)",
+               "value": "floats, objects with a _value attribute ('preserve': no)",
+               "tol": "values, None, 0", "weight": "values and None (<= 0: refused by Optimize, not generated)",
+               "scale": "yes (alias of weight)", "action": "yes",
                "tag": "yes", "optimize_log": "True / False, enabled and disabled"},
     "VaryList": {"vars": "one name per list", "container": "yes", "kwargs": "the Vary keywords"},
     "TargetList": {"tars": "one index per list", "kwargs": "the Target keywords"},
@@ -828,6 +959,37 @@ CTOR_COVERAGE = {
                                    "the model fixes their defaults",
                  "show_call_counter": "False / True", "check_limits": "True / False", "name": "yes",
                  "kwargs": "NOT exercised (stored as tw_kwargs, unused by the optimizer)"},
+}
+
+
+# what the sources test by bare truthiness / by hasattr, and what the generator does about it (enumerated by grep over
+# xdeps/optimize/{optimize,jacobian,matrixutils}.py; the fingerprint of these files guards the list)
+TRUTHINESS_AND_HOOKS = {
+    "numeric attributes and how the unchanged sources test them": {
+        "Vary.max_step": "`is None` (0 is a bound: the whole step is scaled to zero) - generated: None, 0, 0.0, 1e-300, inf, numpy scalars",
+        "Vary.weight / Target.weight": "`is None`; 0 and negative values are refused at construction - generated: None and positive values",
+        "Vary.step": "`is None` - generated: None, positive values, 0 (the Jacobian column is NaN)",
+        "Vary.limits": "`is None`, each side `is None` - generated: None, one-sided, infinite, lo == hi, (0, 0)",
+        "Target.tol": "compared with `<` only - generated: positive values, 0, None (NaN)",
+        "broyden": "bare truthiness (False, 0: off), `== True`, `i_step % broyden` - generated: False, 0, True, 2, 3",
+        "n_steps (step / solve)": "`is None` in solve - generated: None, 0, 1..5",
+        "Optimize.n_steps_max": "range() only - generated: 1..25",
+        "rescale_x, verbose, show_call_counter, name, return_scalar, zero_if_met, check_limits, restore_if_fail, assert_within_tol, optimize_log":
+            "booleans / None tested by truthiness by design (rescale_x and verbose only reachable through the scipy entry points, "
+            "which are exercised as foreign calls)"},
+    "duck-typed hooks (hasattr / getattr)": {
+        "target.transform": "exercised: abs, square, scaling (0.5, -3), lower / upper clip (the inequality-target idiom); modelled (c_ttrans)",
+        "target.value._value": "exercised (Target(value=<object with _value>))",
+        "container.vary_default": "exercised (limits and step defaults)",
+        "Vary container value with _value (Vary.get_value)": "NOT exercised: only the constructor's limit check reads it",
+        "vary.active / target.active missing": "NOT exercised: Vary and Target always define active",
+        "MeritFunctionForMatch._force_jacobian": "NOT exercised (a debugging hook no public entry point sets)",
+        "solver._last_jac_svd, solver._last_jac": "exercised: set by every Jacobian step, read by Broyden steps"},
+    "aliased configurations (outside the model, not generated)":
+        "the same (container, name) location listed in two Vary entries, the same Vary or Target OBJECT listed twice: the unchanged "
+        "sources accept them, the entries are then aliases of one location / one flag (disable(vary=0) disables both entries, a "
+        "write to one knob entry is read back through the other); the model's knobs and flags are positional and distinct. "
+        "Equal NAMES at distinct locations, equal tags and equal target definitions in distinct objects are generated.",
 }
 
 
@@ -873,7 +1035,10 @@ def run_property(ctx, pid, n_quick, n_thorough):
                 "solve/step(with temporary enable_*/disable_* arguments)/reload/tag/enable/disable/clear_log, re-assignments of Target/Vary "
                 "attributes between calls (tol, value, weight, active, limits, max_step), every other public entry point of Optimize "
                 "(run_simplex, run_ls_*, run_bfgs, run_direct, views, status tables, deprecated enable/disable methods) interleaved, "
-                "rarely used constructor forms, string selectors in every accepted form (single string, list, mixed with ids; exact tag / name, escaped, regular expressions) over tag and name sets with proper prefixes, common suffixes, regex metacharacters, case variants, empty and duplicate tags and indexed names k1..k12; profile " + pid +
+                "rarely used constructor forms, string selectors in every accepted form (single string, list, mixed with ids; exact tag / name, escaped, regular expressions) over tag and name sets with proper prefixes, common suffixes, regex metacharacters, case variants, empty and duplicate tags and indexed names k1..k12; a boundary layer over the generated cases: knobs in 2..3 containers with equal names "
+                "in different containers, duck-typed transform hooks on targets (abs, square, scaling, lower / upper clip), target values as objects "
+                "with _value, container.vary_default, max_step 0 / 0.0 / 1e-300 / inf / numpy scalars (alone or with every other max_step None or 0), "
+                "tol 0, limits lo == hi and (0, 0), step 0, broyden=0, solve(n_steps=0); profile " + pid +
                 "; non-trivial = at least one Jacobian step and the mechanism of the property exercised (see feature_key); "
                 "distinct by (function, start, ops, options)")
     proof_ok = vlib.standard_proof_part(ctx, f"props/{pid}.v", allowed_axioms=(), extra_targets=["run/RunOpt.vo"])
@@ -908,6 +1073,7 @@ def run_property(ctx, pid, n_quick, n_thorough):
         dist["outside_model_reasons"][st] = dist["outside_model_reasons"].get(st, 0) + 1
     ctx.cov["input_distribution"] = dist
     ctx.cov["api_coverage"] = api_coverage(dist)
+    ctx.cov["truthiness_tests_and_duck_typed_hooks"] = TRUTHINESS_AND_HOOKS
     if ctx.cov["api_coverage"]["unknown_new_methods"]:
         ctx.notes.append("public methods of Optimize neither modelled nor in the generator's foreign-call list: " +
                          ", ".join(ctx.cov["api_coverage"]["unknown_new_methods"]))
